@@ -353,8 +353,65 @@ def r3_strand_selectors(ctx):
         ctx.ob(fi.where, "extracted subsequence ends at the interval's stop (a clamp may not cut positions inside the sequence)", ok2, c2, key=f"C14-R3|{qn}|stop")
 
 
+_PERM_SOURCES = ("np.lexsort", "np.argsort", "numpy.argsort", "numpy.lexsort")
+
+
+def permute_twice_sites(ix, modules):
+    """(function, permutation variable, result variable, offending subscript): a value computed from `x[p]` (p a sorting permutation) and then indexed
+    by the same p again - the way back is the inverse permutation (np.argsort(p)) or a scatter `out[p] = r`."""
+    out, scanned = [], 0
+    for mod in modules:
+        if mod not in ix.modules:
+            continue
+        for fi in ix.module(mod).functions.values():
+            if isinstance(fi.node, ast.Lambda):
+                continue
+            scanned += 1
+            perms = {}
+            for a in body_walk(fi.node):
+                if isinstance(a, ast.Assign) and len(a.targets) == 1 and isinstance(a.targets[0], ast.Name) and isinstance(a.value, ast.Call) and u(a.value.func) in _PERM_SOURCES:
+                    perms[a.targets[0].id] = a
+            if not perms:
+                continue
+            for p in perms:
+                derived = set()
+                for a in body_walk(fi.node):
+                    if isinstance(a, ast.Assign) and len(a.targets) == 1 and isinstance(a.targets[0], ast.Name) and isinstance(a.value, ast.Call):
+                        uses_perm = any(isinstance(x, ast.Subscript) and u(x.slice) == p for arg in list(a.value.args) + [k.value for k in a.value.keywords] for x in ast.walk(arg))
+                        if uses_perm:
+                            derived.add(a.targets[0].id)
+                for x in body_walk(fi.node):
+                    if not (isinstance(x, ast.Subscript) and isinstance(x.ctx, ast.Load) and u(x.slice) == p):
+                        continue
+                    if isinstance(x.value, ast.Name) and x.value.id in derived:
+                        out.append((fi, p, x.value.id, x))
+                    elif isinstance(x.value, ast.Call) and any(isinstance(y, ast.Subscript) and u(y.slice) == p for arg in list(x.value.args) + [k.value for k in x.value.keywords]
+                                                               for y in ast.walk(arg)):
+                        out.append((fi, p, u(x.value.func) + "(...)", x))
+    return out, scanned
+
+
+def r4_caches_and_permutations(ctx):
+    """(a) dict caches of complement / translation tables are keyed by everything the cached value depends on (an alphabet's letters AND their order);
+    (b) sequences fetched for intervals in a sorted order are put back with the inverse permutation."""
+    from .. import memo
+    ix = ctx.index
+    mods = [m for m in ("bionumpy.sequence.dna", "bionumpy.sequence.lookup", "bionumpy.sequence.translate", "bionumpy.genomic_data.genomic_sequence") if m in ix.modules]
+    n = memo.check_dict_caches(ctx, mods, rule_prefix="C14-R4")
+    ctx.count("dict-cache stores examined", n)
+    pm = [m for m in ix.modules if m.startswith("bionumpy.genomic_data") or m.startswith("bionumpy.sequence") or m == "bionumpy.io.indexed_fasta"]
+    sites, scanned = permute_twice_sites(ix, pm)
+    ctx.floor("functions scanned for the permute-twice idiom", scanned, 150)
+    for fi, p, r, x in sites:
+        ctx.ob(fi.where, f"`{r}` was computed from entries taken in the order `{p}`; indexing it with `{p}` again permutes twice instead of restoring the original order "
+               f"(use np.argsort({p}) or scatter into out[{p}])", False, u(x), key=f"C14-R4|permute-twice|{fi.module.name}|{fi.qualname}|{r}")
+    ctx.ob("bionumpy.genomic_data, bionumpy.sequence", f"{scanned} functions scanned: no value computed on permuted entries is indexed by the same permutation again", True, "",
+           key="C14-R4|permute-twice-scan")
+
+
 RULES = [
     ("C14-R1", r1_complement),
     ("C14-R2", r2_genetic_code),
     ("C14-R3", r3_strand_selectors),
+    ("C14-R4", r4_caches_and_permutations),
 ]
